@@ -78,6 +78,10 @@ def scenarios(ctx):
         if rng.random() < 0.2:
             o["distrust"] = True
             w["pl_weak"] = True
+        if rng.random() < 0.3:
+            # VCF on standard output together with the auxiliary list files: nothing but the VCF may appear there
+            o["to_stdout"] = True
+            o["lists"] = {"read": rng.random() < 0.8, "gt": bool(o.get("distrust")), "recomb": False}
         w["opts"] = o
         w["decor_seed"] = rng.randrange(10 ** 6)
         scs.append({"world": w})
